@@ -149,6 +149,19 @@ CHECKS["C18"] = dict(
          "pairs; all shipped optimal tours are permutations whose loaded edge weights sum to the documented optimum.",
     note="GEO only through the shipped GEO instances' tours (no transcendental functions in TLA+). Weights < 2^31.")
 
+CHECKS["C09"] = dict(
+    category="model_checking", design_ref="DESIGN.md section 2 (C09)",
+    technique="QAP objective, rearrangement bounds and the QAPLIB token stream in TLA+ (BigNat); TLC checks bounds "
+              "enclose every value for all small matrix pairs; scope replayed; recorded evaluations at storage edges "
+              "and all/random line wrappings validated by TLC",
+    text="MC_QAP.tla: for all matrix pairs of the scope and all permutations TrivialLower <= value <= TrivialUpper, "
+         "BigNat = native, tokens invert. The scope and seeded matrix pairs whose upper bound sits at 127/128 ... 2^32 ... "
+         "just below 10^15 (narrow input dtypes included) are evaluated by the real Instance/QAPObjective; Trace_QAP "
+         "demands stored = given, value = flow-distance sum, declared lower <= value <= declared upper. QAPLIB texts "
+         "for n<=2 in all wrappings and random wrappings with blank lines must load to (n, flows, distances).",
+    note="One genuine defect found and fixed (loader rejected wrappings, fix c56108a). Exhaustive for 2x2 (3x3 over 0..1 "
+         "thorough).")
+
 NOT_YET = {
 }
 
